@@ -463,7 +463,7 @@ def words(tier):
     out = []
     for l in range(1, L + 1):
         for w in itertools.product(range(len(ALPHA)), repeat=l):
-            if l == 3 and not (w[0] <= 6 and w[1] <= 6 and w[2] <= 6):
+            if l == 3 and not (w[0] <= 4 and w[1] <= 4 and w[2] <= 4):      # depth 3 over the first five gates of the alphabet
                 continue
             out.append([ALPHA[i] for i in w])
     return out
